@@ -203,6 +203,30 @@ def leaf_objects(tree, acc):
 
 
 ORDERS = list(itertools.permutations(ACCESSORS))
+ROTATIONS = [ACCESSORS[i:] + ACCESSORS[:i] for i in range(4)]
+# a view requested with a non-default encoding BEFORE the four default views (on the root, or on every node of the tree):
+# "computing a value never changes a later result" includes values computed under another encoding
+PRELUDES = (None, "root_str_utf8", "nodes_str_utf8", "nodes_bytes_latin1")
+
+
+def all_nodes(t, acc):
+    acc.append(t)
+    for c in t._children:
+        all_nodes(c, acc)
+    return acc
+
+
+def prelude_call(node, kind):
+    try:
+        if kind.endswith("str_utf8"):
+            return ("ok", node.to_string(encoding="utf-8"))
+        if kind.endswith("bytes_latin1"):
+            return ("ok", node.to_bytes(encoding="latin-1"))
+        if kind.endswith("bits_utf16"):
+            return ("ok", node.to_bits(encoding="utf-16-be"))
+    except Exception as e:
+        return ("err", type(e).__name__)
+    raise AssertionError(kind)
 
 
 def work(item):
@@ -214,16 +238,22 @@ def work(item):
     seen_results = {}
     for shape in shapes(items, max_depth):
         res["shapes"] += 1
-        for order in ORDERS:
+        for prelude, order in [(None, o) for o in ORDERS] + [(p, o) for p in PRELUDES[1:] for o in ROTATIONS]:
             res["seqs"] += 1
             tree = build_tree(shape, atom_names)
             before = snap_full(tree)
             leaf_before = leaf_objects(tree, [])
             got = {}
+            if prelude is not None:
+                nodes = all_nodes(tree, []) if prelude.startswith("nodes_") else [tree]
+                # the results under another encoding are not judged (the property fixes the default encodings only); what is judged is
+                # that the four default views afterwards are what they would have been without these requests
+                for n in nodes:
+                    prelude_call(n, prelude)
             for a in order:
                 got[a] = call(tree, a)
             after = snap_full(tree)
-            base = {"atoms": list(atom_names), "leaves": repr(leaves), "shape": repr(shape), "order": list(order)}
+            base = {"atoms": list(atom_names), "leaves": repr(leaves), "shape": repr(shape), "order": list(order), "prelude": prelude}
             if before != after:
                 res["viol"].append(dict(base, kind="accessor_modified_tree", sig="accessor_modified_tree"))
             for (v, val0, tb0) in leaf_before:
@@ -322,6 +352,6 @@ def run(ctx: Ctx) -> None:
         states=shapes_n, transitions=seqs * 4, traces_validated_against_impl=seqs,
         samples=[{"atoms": ["nib", "nib", "x01"], "shape": "[0, ('w', [1, 2])]", "order": list(ORDERS[5])}],
         exhaustive=True, leaf_sequences=len(items), tree_shapes=shapes_n, accessor_sequences=seqs, distinct_outcomes=outcomes,
-        rule="state = tree shape over an atom sequence; transition = one accessor call in one of the 24 accessor orders; every result compared with RefValue",
+        rule="state = tree shape over an atom sequence; transition = one accessor call in one of the 24 accessor orders, or in one of 4 rotations after a view under a non-default encoding was requested on the root / on every node; every result compared with RefValue",
     )
     ctx.assumptions.append("RefValue: text leaves UTF-8 next to binary, string view of a binary tree = Latin-1 of its bytes, error iff bytes needed at a non-aligned position or bits do not fill a byte")
